@@ -152,6 +152,8 @@ def build(cls, rnd, radios):
         p = HSTRP(PT(is_reject=True), sn=sn)
     else:
         raise ValueError(cls)
+    if cls not in ("connect", "close", "heartbeat", "ack_connect", "ack_close") and rnd.random() < 0.15:
+        p.version = rnd.choice([1, 2, 0x7F, 0xFF])  # legal, unusual: the version octet is a field like any other
     return p.as_bytes(), meta
 
 
